@@ -3,6 +3,7 @@ package rules
 import (
 	"fmt"
 	"go/token"
+	"go/types"
 	"sort"
 	"strings"
 
@@ -20,7 +21,7 @@ func init() {
 			"WriteControl performs exactly one transport write of the complete frame buffer, and Conn.write keeps the lock from its first to its last transport write; " +
 			"C15.latch - both lock holders read writeErr after acquiring the write lock and return before the transport write when it is set, and after writing a Close frame " +
 			"the close-sent error is latched before the lock is released; C15.own - every Conn field reachable from the concurrency-safe API (WriteControl, Close) is either " +
-			"never stored after construction or a lock-guarded location. Not decided: byte-stream well-formedness under all interleavings by enumeration, data-race freedom by a race detector.",
+			"never stored after construction or a lock-guarded location; they do not use scratch storage kept in the connection (an array field handed out as a slice) nor the buffer the message writer fills between two flushes; what runs on the reading goroutine (the frame loop, the default ping/pong/close handlers) answers through WriteControl only. Not decided: byte-stream well-formedness under all interleavings by enumeration, data-race freedom by a race detector.",
 		Assume: []string{"a buffered channel of capacity 1 pre-filled with one token is a mutex", "net.Conn.Write writes the whole buffer or returns an error", "sync.Mutex"},
 		Run:    runC15,
 	})
@@ -422,6 +423,62 @@ func checkConnOwn(c *Ctx, _ string) {
 			}
 		})
 	}
+	// buffers whose contents the message writer fills between two flushes, without the lock (the lock covers the
+	// transport write only): a slice field of the connection that a messageWriter method copies into or stores through
+	writerOwned := map[string]string{}
+	connFields := map[*types.Var]bool{}
+	if cn := P.NamedType("websocket", "Conn"); cn != nil {
+		if st, ok := cn.Underlying().(*types.Struct); ok {
+			for i := 0; i < st.NumFields(); i++ {
+				connFields[st.Field(i)] = true
+			}
+		}
+	}
+	for _, fn := range P.ModuleFuncs("websocket") {
+		if fn.Signature.Recv() == nil || !strings.Contains(types.TypeString(fn.Signature.Recv().Type(), nil), "messageWriter") {
+			continue
+		}
+		fieldOf := func(v ssa.Value) string {
+			for d := 0; d < 6 && v != nil; d++ {
+				switch x := v.(type) {
+				case *ssa.Slice:
+					v = x.X
+					continue
+				case *ssa.IndexAddr:
+					v = x.X
+					continue
+				case *ssa.UnOp:
+					if x.Op == token.MUL {
+						if _, isF := x.X.(*ssa.FieldAddr); isF {
+							if _, isSl := x.Type().Underlying().(*types.Slice); isSl {
+								if fv := core.FieldVar(x.X); fv != nil && connFields[fv] {
+									return "Conn." + core.FieldVarName(fv)
+								}
+							}
+						}
+					}
+				}
+				break
+			}
+			return ""
+		}
+		core.EachInstr(fn, func(in ssa.Instruction) {
+			switch x := in.(type) {
+			case *ssa.Store:
+				if ia, ok := x.Addr.(*ssa.IndexAddr); ok {
+					if f := fieldOf(ia); strings.HasPrefix(f, "Conn.") {
+						writerOwned[f] = core.FuncName(fn)
+					}
+				}
+			case *ssa.Call:
+				if b, ok := x.Call.Value.(*ssa.Builtin); ok && (b.Name() == "copy" || b.Name() == "append") && len(x.Call.Args) > 0 {
+					if f := fieldOf(x.Call.Args[0]); strings.HasPrefix(f, "Conn.") {
+						writerOwned[f] = core.FuncName(fn)
+					}
+				}
+			}
+		})
+	}
 	guarded := map[string]string{"Conn.writeErr": "Conn.writeErrMu"}
 	var paths []string
 	for p := range touched {
@@ -437,6 +494,10 @@ func checkConnOwn(c *Ctx, _ string) {
 		switch {
 		case guarded[base] != "":
 			R.OK("C15.own", key, "-", "lock-guarded location ("+guarded[base]+")")
+		case writerOwned[base] != "":
+			R.Fail("C15.own", key, "-",
+				"WriteControl/Close (documented as safe to call concurrently with the data writer) use "+base+", the buffer "+writerOwned[base]+" fills between two flushes without holding the write mutex: a control frame assembled there overwrites message bytes that are buffered but not yet sent (holding the mutex does not help - the writer does not take it to buffer)",
+				map[string]interface{}{"kinds": keys(touched[p])})
 		case touched[p]["slice"]:
 			R.Fail("C15.own", key, "-",
 				"WriteControl/Close (documented as safe to call concurrently with the data writer and the reader) hand out the storage of an array kept in the connection as a slice and build on it (append/copy): two concurrent control senders, or a sender and the writer, share that scratch space and overwrite each other's frame",
